@@ -492,7 +492,6 @@ for _cid in ('C01', 'C02'):
                         'a prefix ++ / -- statement directly behind a block, holes inside nested array literals.')
 _upd('C02', note='Known findings F7, F8, F9, F29 (drop_semi drops the terminator of a statement followed only by brace / semicolon tokens).')
 _upd('C03', text_add='lex.number also over digits of other scripts (a \\d in the pattern would accept them), against an independent hand-written NumericLiteral recogniser.')
-_upd('C07', text_add='Scoping programs added: hoisting seen from an inner scope that closes before the nearer declaration appears.')
 _upd('C12', text_add='Inputs added: format-control and control characters at the very end of the input and before trailing white space.')
 _upd('C14', text_add='The tree is compared before / after through every attribute of every reachable node (private ones and token maps included), not only its repr.')
 _upd('C17', text_add='purge_tabs also with one or none of the two generated modules present; `__debug__` is an arbitrary boolean for the VC generator '
@@ -556,5 +555,7 @@ _upd('C19', text=('The extractor is a rule table interpreted by the generic walk
                   'number shapes), all with fold_ops off and on. Bounded stand-in, labelled so: JSON values of every scalar class and small nesting shape plus '
                   'random deeper ones, bound by var, by assignment, inside a function and among other statements, must extract to exactly '
                   '{name: json.loads(text)}. Known findings F18a / F18b (two string-literal cases).'))
+
+_upd('C07', text_add='Scoping programs added: hoisting seen from an inner scope that closes before the nearer declaration appears.')
 
 NOT_APPLICABLE = {}
